@@ -2,6 +2,7 @@ package main
 
 import (
 	"fmt"
+	"os"
 	"go/constant"
 	"go/token"
 	"go/types"
@@ -43,6 +44,11 @@ type Exec struct {
 	noContractFor map[string]bool
 	callStack []*ssa.Function
 	assumed   map[string]int
+	site      string
+	initDone  map[*ssa.Package]bool
+	inInit    map[*ssa.Package]bool
+	globalVals map[*ssa.Global]*Term
+	initStates map[*ssa.Package]*State
 }
 
 type Frame struct {
@@ -187,7 +193,86 @@ func (ex *Exec) val(fr *Frame, v ssa.Value, st *State) Val {
 	return r
 }
 
+// globalInits runs the package initialiser once on a scratch state and records the closed-term values it
+// stores into package-level variables (e.g. ack result constants).
+func (ex *Exec) globalInits(pkg *ssa.Package) {
+	if ex.initDone[pkg] {
+		return
+	}
+	ex.initDone[pkg] = true
+	initFn := pkg.Func("init")
+	if initFn == nil || initFn.Blocks == nil {
+		return
+	}
+	saveSpec, saveStack, saveSite, saveUns, saveWarn := ex.specMode, ex.callStack, ex.site, ex.unsupported, ex.warnings
+	ex.specMode++
+	ex.callStack = nil
+	ex.warnings = map[string]int{}
+	defer func() {
+		if len(ex.unsupported) > len(saveUns) && os.Getenv("ICSVC_DEBUG_INIT") != "" {
+			fmt.Fprintln(os.Stderr, "init unsupported:", pkg.Pkg.Path(), ex.unsupported[len(saveUns):])
+		}
+		ex.specMode, ex.callStack, ex.site, ex.unsupported, ex.warnings = saveSpec, saveStack, saveSite, saveUns, saveWarn
+		if r := recover(); r != nil && os.Getenv("ICSVC_DEBUG_INIT") != "" {
+			fmt.Fprintln(os.Stderr, "init panic:", pkg.Pkg.Path(), r)
+		}
+	}()
+	st := NewState()
+	rs := ex.runFunc(initFn, nil, nil, st, nil)
+	if os.Getenv("ICSVC_DEBUG_INIT") != "" {
+		fmt.Fprintln(os.Stderr, "init", pkg.Pkg.Path(), "paths:", len(rs))
+	}
+	if len(rs) != 1 {
+		return
+	}
+	for g, o := range ex.globals {
+		if g.Pkg != pkg {
+			continue
+		}
+		if c, ok := rs[0].st.heap[o.id]; ok {
+			switch v := c.(type) {
+			case *Term:
+				if !v.hasBV {
+					ex.globalVals[g] = v
+				}
+			case *SliceV, *ByteSlV:
+				et := g.Type().(*types.Pointer).Elem()
+				ex.globalVals[g] = ex.asTerm(rs[0].st, v, et)
+			}
+		}
+	}
+	// globals first seen later are resolved from this final state too
+	ex.initStates[pkg] = rs[0].st
+	// definitional facts established by the initialiser (e.g. registered errors are non-nil) hold globally
+	for _, d := range rs[0].st.defs {
+		if !d.hasBV {
+			ex.axioms = append(ex.axioms, d)
+		}
+	}
+}
+
 func (ex *Exec) globalDefault(o *Obj) Val {
+	if o.name == "global:init$guard" {
+		return False
+	}
+	for g, oo := range ex.globals {
+		if oo == o && g.Pkg != nil && !ex.inInit[g.Pkg] {
+			ex.inInit[g.Pkg] = true
+			ex.globalInits(g.Pkg)
+			ex.inInit[g.Pkg] = false
+			if v, ok := ex.globalVals[g]; ok {
+				return v
+			}
+			if is := ex.initStates[g.Pkg]; is != nil {
+				if c, ok := is.heap[o.id]; ok {
+					if t, isT := c.(*Term); isT && !t.hasBV {
+						ex.globalVals[g] = t
+						return t
+					}
+				}
+			}
+		}
+	}
 	name := strings.TrimPrefix(o.name, "global:")
 	s := sortOf(o.typ)
 	if s == SErr {
@@ -268,9 +353,10 @@ func isByteElem(t types.Type) bool {
 	return ok && (b.Kind() == types.Uint8 || b.Kind() == types.Byte)
 }
 
+// freshNonNilErr: a non-nil error identified by the program point that creates it.
 func (ex *Exec) freshNonNilErr(st *State, hint string) *Term {
-	e := Fresh("err_"+hint, SErr)
-	st.Assume(Neq(e, ErrNil))
+	e := Var("err_"+hint+"@"+ex.site, SErr)
+	st.AssumeDef(Neq(e, ErrNil))
 	return e
 }
 
@@ -280,9 +366,9 @@ func (ex *Exec) shiftedArr(st *State, s *SliceV) *Term {
 	if s.Off.Op == "int" && s.Off.Int.Sign() == 0 {
 		return arr
 	}
-	b := Fresh("shift", arr.Sort)
+	b := Det("shift", arr.Sort, arr, s.Off)
 	i := BVar("i!sh", SInt)
-	st.Assume(Forall([]*Term{i}, Eq(Select(b, i), Select(arr, Add(s.Off, i))), []*Term{Select(b, i)}))
+	st.AssumeDef(Forall([]*Term{i}, Eq(Select(b, i), Select(arr, Add(s.Off, i))), []*Term{Select(b, i)}))
 	return b
 }
 
@@ -587,6 +673,7 @@ func (ex *Exec) runFrom(fr *Frame, b *ssa.BasicBlock, idx int, st *State) []Resu
 		instrs := b.Instrs
 		for i := idx; i < len(instrs); i++ {
 			in := instrs[i]
+			ex.site = fmt.Sprintf("%s.b%d.%d", fr.fn.Name(), b.Index, i)
 			switch x := in.(type) {
 			case *ssa.If:
 				c := ex.val(fr, x.Cond, st).(*Term)
@@ -1282,17 +1369,17 @@ func (ex *Exec) rangeInit(fr *Frame, x *ssa.Range, st *State) Val {
 		m := ex.asMap(st, base, x.X.Type())
 		c := ex.content(st, m.Obj).(*Term)
 		ks := sortOf(mt.Key())
-		n := Fresh("mapn", SInt)
-		keyAt := FreshName("mapkey")
-		idxOf := FreshName("mapidx")
+		n := Det("mapn", SInt, c)
+		keyAt := DetName("mapkey", c)
+		idxOf := DetName("mapidx", c)
 		DeclareUF(keyAt, []*Sort{SInt}, ks)
 		DeclareUF(idxOf, []*Sort{ks}, SInt)
 		i := BVar("i!mr", SInt)
 		k := BVar("k!mr", ks)
-		st.Assume(Ge(n, IntLit(0)))
+		st.AssumeDef(Ge(n, IntLit(0)))
 		// enumeration is a bijection between [0,n) and the key set
-		st.Assume(Forall([]*Term{i}, Implies(And(Le(IntLit(0), i), Lt(i, n)), And(Select(MapHas(c), App(keyAt, i)), Eq(App(idxOf, App(keyAt, i)), i))), []*Term{App(keyAt, i)}))
-		st.Assume(Forall([]*Term{k}, Implies(Select(MapHas(c), k), And(Le(IntLit(0), App(idxOf, k)), Lt(App(idxOf, k), n), Eq(App(keyAt, App(idxOf, k)), k))), []*Term{App(idxOf, k)}))
+		st.AssumeDef(Forall([]*Term{i}, Implies(And(Le(IntLit(0), i), Lt(i, n)), And(Select(MapHas(c), App(keyAt, i)), Eq(App(idxOf, App(keyAt, i)), i))), []*Term{App(keyAt, i)}))
+		st.AssumeDef(Forall([]*Term{k}, Implies(Select(MapHas(c), k), And(Le(IntLit(0), App(idxOf, k)), Lt(App(idxOf, k), n), Eq(App(keyAt, App(idxOf, k)), k))), []*Term{App(idxOf, k)}))
 		o := st.NewObj("mapiter", nil, IntLit(0))
 		return &MapIterV{Obj: o, Map: c, N: n, KeyAt: keyAt, Key: mt.Key(), Elt: mt.Elem()}
 	}
